@@ -6,7 +6,7 @@
    the new text; they then either still hold or the build fails and the check reports the broken tie. *)
 From Coq Require Import List Bool String.
 From EsVerif.Common Require Import Base Bytes.
-From EsVerif.C16 Require Import Model Spec ChunkProofs Proofs Ext Gen.
+From EsVerif.C16 Require Import Model Spec ChunkProofs Proofs Ext ExtProofs Gen.
 Local Open Scope list_scope.
 
 (* ---- predicates *)
@@ -191,3 +191,73 @@ Lemma statement_of_source ml f a ip keep :
 Proof.
   intros V U g. unfold g. rewrite !tie_apply. apply conv_correct; assumption.
 Qed.
+
+(* ---- the swap decisions alone (regenerated: the lets of each body up to the `if` that binds the returned array,
+        then its test) are the model's [doswap] *)
+Lemma tie_swaps_to_native ml a ip k : nu_to_native_swaps_g ml a ip k = doswap ToNative ml (adt a).
+Proof.
+  unfold nu_to_native_swaps_g, doswap. cbv zeta. destruct a as [[s|fs] sh data]; cbn [adt base_order].
+  - rewrite tie_nu_is_little_endian. destruct ml, (is_little_endian _ (sord s)); reflexivity.
+  - rewrite (scan_g_ext _ (is_little_endian ml)) by (intro; apply tie_nu_is_little_endian).
+    rewrite scan_g_little. destruct ml, (scan_little _ fs); reflexivity.
+Qed.
+Lemma tie_swaps_to_big_endian ml a ip k : nu_to_big_endian_swaps_g ml a ip k = doswap ToBig ml (adt a).
+Proof.
+  unfold nu_to_big_endian_swaps_g, doswap. cbv zeta. destruct a as [[s|fs] sh data]; cbn [adt base_order].
+  - rewrite tie_nu_is_big_endian. destruct (is_big_endian ml (sord s)); reflexivity.
+  - rewrite (scan_g_ext _ (is_little_endian ml)) by (intro; apply tie_nu_is_little_endian).
+    rewrite scan_g_little. reflexivity.
+Qed.
+Lemma tie_swaps_to_little_endian ml a ip k : nu_to_little_endian_swaps_g ml a ip k = doswap ToLittle ml (adt a).
+Proof.
+  unfold nu_to_little_endian_swaps_g, doswap. cbv zeta. destruct a as [[s|fs] sh data]; cbn [adt base_order].
+  - rewrite tie_nu_is_little_endian. destruct (is_little_endian ml (sord s)); reflexivity.
+  - rewrite (scan_g_ext _ (is_big_endian ml)) by (intro; apply tie_nu_is_big_endian).
+    rewrite scan_g_big. reflexivity.
+Qed.
+Lemma tie_swaps_to_native_inplace ml a : ru_to_native_inplace_swaps_g ml a = doswap ToNative ml (adt a).
+Proof.
+  unfold ru_to_native_inplace_swaps_g, doswap. cbv zeta. destruct a as [[s|fs] sh data]; cbn [adt base_order].
+  - rewrite tie_ru_is_little_endian. destruct ml, (is_little_endian _ (sord s)); reflexivity.
+  - rewrite (scan_g_ext _ (is_little_endian ml)) by (intro; apply tie_ru_is_little_endian).
+    rewrite scan_g_little. destruct ml, (scan_little _ fs); reflexivity.
+Qed.
+
+(* ---- nested records: the hand model [apply_top] (scan over what the top level shows, byteswap over the leaves)
+        is assembled from REGENERATED parts only: the regenerated decision run on a record whose fields carry the
+        top-level orders, the regenerated byteswap, and the no-swap branch *)
+Definition pseudo_field (o : order) : field :=
+  {| fname := EmptyString; fty := {| skind := KInt; ssize := 1; sord := o |}; fsub := [] |}.
+Definition pseudo (top : list order) : arr := {| adt := DStruct (map pseudo_field top); ashape := []; adata := [] |}.
+
+Lemma top_of_pseudo top : top_of (map pseudo_field top) = top.
+Proof. unfold top_of. rewrite map_map. cbn [pseudo_field fty sord]. apply map_id. Qed.
+
+Definition swaps_g (f : conv) (ml : bool) (a : arr) (ip k : bool) : bool :=
+  match f with
+  | ToNative => nu_to_native_swaps_g ml a ip k
+  | ToBig => nu_to_big_endian_swaps_g ml a ip k
+  | ToLittle => nu_to_little_endian_swaps_g ml a ip k
+  | Swap => true
+  end.
+
+Lemma tie_swaps f ml a ip k : swaps_g f ml a ip k = doswap f ml (adt a).
+Proof.
+  destruct f; [apply tie_swaps_to_native|apply tie_swaps_to_big_endian|apply tie_swaps_to_little_endian|reflexivity].
+Qed.
+
+Lemma tie_apply_top f ml top a ip k :
+  apply_top f ml top a ip k
+  = if swaps_g f ml (pseudo top) ip k then nu_byteswap_g ml a ip k else (if ip then prim_self a else prim_copy a).
+Proof.
+  unfold apply_top. rewrite tie_swaps, tie_byteswap, noswap_prim. cbn [pseudo adt].
+  rewrite <- doswap_top_flat, top_of_pseudo. reflexivity.
+Qed.
+
+Lemma source_tie_decisions :
+  (forall f ml a ip k, swaps_g f ml a ip k = doswap f ml (adt a))
+  /\ (forall ml a, ru_to_native_inplace_swaps_g ml a = doswap ToNative ml (adt a))
+  /\ (forall f ml top a ip k,
+        apply_top f ml top a ip k
+        = if swaps_g f ml (pseudo top) ip k then nu_byteswap_g ml a ip k else (if ip then prim_self a else prim_copy a)).
+Proof. split; [exact tie_swaps|]. split; [exact tie_swaps_to_native_inplace|exact tie_apply_top]. Qed.
